@@ -1,5 +1,6 @@
 import Mouette.Generated.C01Acc
 import Mouette.Model.Surface
+import Mouette.Lemmas.C01HalfEdge
 /-! Bridges for the search loops (`in_face_index`, `common_edge`) and the cache reads TRANSLATED into `Generated/C01Acc.lean`. -/
 namespace Mouette.Lemmas.C01Acc
 open Mouette.Surface Mouette.SurfSource
@@ -91,5 +92,140 @@ theorem vertexToVertices_bridge (S : Surf) (a b : V2Cn) (hb : b = (List.range S.
     (hv : v < S.nv) : Mouette.Generated.C01Acc.vertexToVertices S a b v = some (Mouette.Surface.vertexToVertices S v) := by
   unfold Mouette.Generated.C01Acc.vertexToVertices
   rw [hb]; simp [hv]
+
+
+/-! ### `_adjF2Cn` (first write wins) and the accessors reading it -/
+open Mouette.Generated.C01HE
+
+/-- the corner loop of `_compute_connectivity` on `_adjF2Cn`: a face already bound keeps its corner, a new face gets the first
+corner that names it -/
+theorem dictGet_cons (g c : Nat) (d : FDict) (f : Nat) :
+    dictGet ((g, c) :: d) f = if (g == f) = true then some c else dictGet d f := by
+  unfold dictGet
+  rw [List.find?_cons]
+  cases h : g == f <;> simp
+
+theorem dictHas_eq (d : FDict) (g : Nat) : dictHas d g = (dictGet d g).isSome := by
+  unfold dictHas dictGet
+  rw [Option.isSome_map, Bool.eq_iff_iff, List.any_eq_true, List.find?_isSome]
+
+theorem f2cn_fold (S : Surf) (l : List Nat) : ∀ (st : FDict × V2Cn × VFDict) (f : Nat),
+    dictGet (l.foldl (computeConnectivity_for1_step S) st).1 f =
+      (dictGet st.1 f).or (l.find? fun c => (S.fc.getD c (0, 0)).2 == f) := by
+  induction l with
+  | nil => intro st f; simp
+  | cons c l ih =>
+    intro st f
+    rw [List.foldl_cons, ih]
+    obtain ⟨d, t, vf⟩ := st
+    have hstep : (computeConnectivity_for1_step S (d, t, vf) c).1 =
+        if dictHas d (S.fc.getD c (0, 0)).2 then d else ((S.fc.getD c (0, 0)).2, c) :: d := by
+      simp only [computeConnectivity_for1_step]
+      cases dictHas d (S.fc.getD c (0, 0)).2 <;> rfl
+    rw [hstep, List.find?_cons]
+    generalize (S.fc.getD c (0, 0)).2 = g
+    by_cases hd : dictHas d g = true
+    · rw [if_pos hd]
+      cases hgf : g == f
+      · rfl
+      · have : g = f := by simpa using hgf
+        subst this
+        rw [dictHas_eq] at hd
+        obtain ⟨x, hx⟩ := Option.isSome_iff_exists.mp hd
+        show (dictGet d g).or _ = (dictGet d g).or _
+        rw [hx]; rfl
+    · rw [if_neg hd, dictGet_cons]
+      cases hgf : g == f
+      · rfl
+      · have : g = f := by simpa using hgf
+        subst this
+        have hn : dictGet d g = none := by
+          rw [dictHas_eq] at hd
+          cases h : dictGet d g with
+          | none => rfl
+          | some x => rw [h] at hd; simp at hd
+        simp only [if_true]
+        show (some c).or _ = (dictGet d g).or (some c)
+        rw [hn]; rfl
+
+theorem find?_congr'' {α} {l : List α} {p q : α → Bool} (h : ∀ x ∈ l, p x = q x) : l.find? p = l.find? q := by
+  induction l with
+  | nil => rfl
+  | cons x l ih =>
+    rw [List.find?_cons, List.find?_cons, h x (List.mem_cons_self ..), ih (fun y hy => h y (List.mem_cons_of_mem _ hy))]
+
+theorem find_range_findIdx {α} (l : List α) (d : α) (p : α → Bool) (k : Nat) :
+    (List.range' k l.length).find? (fun c => p ((l.getD (c - k) d))) = (l.findIdx? p).map (· + k) := by
+  induction l generalizing k with
+  | nil => rfl
+  | cons x l ih =>
+    simp only [List.length_cons, List.range'_succ, List.find?_cons, Nat.sub_self, List.getD_cons_zero, List.findIdx?_cons]
+    cases hp : p x
+    · simp only [Bool.false_eq_true, if_false]
+      have hcongr : (List.range' (k + 1) l.length).find? (fun c => p ((x :: l).getD (c - k) d)) =
+          (List.range' (k + 1) l.length).find? (fun c => p (l.getD (c - (k + 1)) d)) := by
+        apply find?_congr''
+        intro c hc
+        have hck : k + 1 ≤ c := (List.mem_range'_1.mp hc).1
+        have : c - k = (c - (k + 1)) + 1 := by omega
+        rw [this, List.getD_cons_succ]
+      rw [hcongr, ih (k + 1)]
+      cases l.findIdx? p <;> simp [Nat.add_comm, Nat.add_left_comm]
+    · simp
+
+/-- **`_adjF2Cn`** after `_compute_connectivity`: a lookup gives the first corner of the face in the `face_corners` container -/
+theorem computeConnectivity_f2cn (S : Surf) (f : Nat) :
+    dictGet (computeConnectivity S).2.2.1 f = faceToFirstCorner S f := by
+  have h := f2cn_fold S (List.range S.fc.length) ([], List.replicate S.nv [], []) f
+  have hshape : (computeConnectivity S).2.2.1 =
+      (List.foldl (computeConnectivity_for1_step S) ([], List.replicate S.nv [], []) (List.range S.fc.length)).1 := rfl
+  rw [hshape, h]
+  have hr := find_range_findIdx S.fc (0, 0) (fun e => e.2 == f) 0
+  simp only [Nat.sub_zero, Nat.add_zero, Option.map_id'] at hr
+  rw [List.range_eq_range']
+  unfold faceToFirstCorner
+  simp only [dictGet, List.find?_nil, Option.map_none, Option.none_or]
+  exact hr
+
+theorem faceToFirstCorner_bridge (S : Surf) (d : FDict) (hd : ∀ f, dictGet d f = Mouette.Surface.faceToFirstCorner S f) (f : Nat) :
+    Mouette.Generated.C01Acc.faceToFirstCorner S d f = Mouette.Surface.faceToFirstCorner S f := by
+  unfold Mouette.Generated.C01Acc.faceToFirstCorner
+  rw [hd]; cases Mouette.Surface.faceToFirstCorner S f <;> rfl
+
+theorem mapM_some' {α β} (g : α → β) (l : List α) : l.mapM (fun x => some (g x)) = some (l.map g) := by
+  induction l with
+  | nil => rfl
+  | cons x l ih => rw [List.mapM_cons, ih]; rfl
+
+theorem mapM_none' {α β} (l : List α) (hl : l ≠ []) : l.mapM (fun _ => (none : Option β)) = none := by
+  cases l with
+  | nil => exact absurd rfl hl
+  | cons x l => rfl
+
+/-- `face_to_corners` on a face that exists and is not empty (`[]` is returned, not a KeyError, for an empty face) -/
+theorem faceToCorners_bridge (S : Surf) (d : FDict) (hd : ∀ f, dictGet d f = Mouette.Surface.faceToFirstCorner S f) (f : Nat)
+    (hne : faceOf S f ≠ []) :
+    Mouette.Generated.C01Acc.faceToCorners S d f = Mouette.Surface.faceToCorners S f := by
+  unfold Mouette.Generated.C01Acc.faceToCorners Mouette.Surface.faceToCorners
+  rw [hd]
+  cases Mouette.Surface.faceToFirstCorner S f with
+  | none =>
+    have : List.range (faceOf S f).length ≠ [] := by
+      intro h; apply hne; exact List.length_eq_zero_iff.mp (by simpa using congrArg List.length h)
+    simp only [Option.map_none]
+    rw [mapM_none' _ this]
+  | some c0 =>
+    simp only [Option.map_some]
+    rw [mapM_some' (fun i => c0 + i)]
+
+theorem faceToFaces_bridge (S : Surf) (d : FDict) (f : Nat) :
+    Mouette.Generated.C01Acc.faceToFaces S d f = Mouette.Surface.faceToFaces S f := by
+  unfold Mouette.Generated.C01Acc.faceToFaces Mouette.Surface.faceToFaces
+  cases Mouette.Surface.faceToCorners S f with
+  | none => rfl
+  | some cs =>
+    simp only [Option.map_some]
+    rw [List.filterMap_map]
+    rfl
 
 end Mouette.Lemmas.C01Acc
